@@ -105,6 +105,11 @@ func (c *Client) validateVirtualChannelSettlementProposal(
 	}
 
 	// Validate signatures.
+	numParts := len(prop.Final.Params.Parts)
+	if len(prop.Final.Sigs) != numParts || prop.Final.State.NumParts() != numParts {
+		return errors.New("number of signatures or balances does not match the parameters")
+	}
+
 	for i, sig := range prop.Final.Sigs {
 		for _, p := range prop.Final.Params.Parts[i] {
 			ok, err := channel.Verify(
@@ -134,6 +139,10 @@ func (c *Client) validateVirtualChannelSettlementProposal(
 	}
 
 	// Assert not contained after
+	if len(subAlloc.IndexMap) != numParts {
+		return errors.New("index map does not match the virtual channel")
+	}
+
 	_, containedAfter := prop.State.SubAlloc(prop.Final.Params.ID())
 	if containedAfter {
 		return errors.New("virtual channel must not be de-allocated after update")
